@@ -154,6 +154,7 @@ class SerialWorld(World):
         self.connect_caller = None
         self.status_log = []
         self.raw_writes = []
+        self.deliveries = []        # (position in the event trace, bytes) of every gateway frame handed to the driver
 
     def build(self):
         from dali.driver import serial as S
@@ -199,7 +200,9 @@ class SerialWorld(World):
         return out
 
     def _deliver0(self):
-        self.loop.inject(self.protocol.data_received, self.gateway.pending.pop(0))
+        data = self.gateway.pending.pop(0)
+        self.deliveries.append((len(self.trace), data))
+        self.loop.inject(self.protocol.data_received, data)
 
     def _deliver1(self):
         self.loop.inject(self.protocol.data_received, self.gateway.observe.pop(0))
